@@ -167,3 +167,51 @@ def run_shape(prog, tier, repo):
     res.floor('Tuple constructions in the parser', n_tuple, 3)
     res.analysed['method_access_constructions'] = n_ma
     return [res]
+
+
+def run_fabricate(prog, tier, repo):
+    res = RuleResult('FABRICATE-REPORTS', 'C05: a syntax error is always reported when the parser had to invent tokens - every '
+                     'fabricated placeholder (missing identifier, dummy literal, `any` annotation) is on an error-reporting path')
+    from ..callgraph import iter_operands_rvalue
+    is_report = lambda n: n.endswith("SourceParser::<'a>::report") or ('ErrorSet::report_' in n)
+    n = 0
+    for b in sorted(prog.bodies.values(), key=lambda x: x.name):
+        if b.crate != 'samlang_parser' or '::source_parser::' not in b.name:
+            continue
+        cfg = cfg_of(b)
+        reports = [bi for bi, bl in enumerate(b.blocks) if not bl.cleanup and bl.term[0] == 'call'
+                   and is_report(callee(bl.term)[1] or '')]
+        sites = []
+        for bi, bl in enumerate(b.blocks):
+            if bl.cleanup:
+                continue
+            for st in bl.stmts:
+                if st[0] != 'a':
+                    continue
+                for o in iter_operands_rvalue(st[2]):
+                    if o[0] == 'k' and (o[1].u or '').endswith('::MISSING'):
+                        sites.append((bi, st[3], 'placeholder identifier `missing`'))
+                if st[2][0] == 'agg' and st[2][1][0] == 'adt':
+                    ak = st[2][1]
+                    if ak[3] == 'Any' and ak[1].endswith('PrimitiveTypeKind'):
+                        sites.append((bi, st[3], '`any` type annotation'))
+                    if ak[3] == 'Int' and ak[1].endswith('source::Literal') and st[2][2] and st[2][2][0][0] == 'k':
+                        sites.append((bi, st[3], f'dummy integer literal {st[2][2][0][1].v}'))
+            t = bl.term
+            if t[0] == 'call':
+                for o in t[3]:
+                    if o[0] == 'k' and (o[1].u or '').endswith('::MISSING'):
+                        sites.append((bi, t[7], 'placeholder identifier `missing`'))
+        seen = {}
+        for bi, line, what in sites:
+            n += 1
+            base = f'fabricate:{b.name}:{what}'
+            seen[base] = seen.get(base, 0) + 1
+            key = base if seen[base] == 1 else f'{base}#{seen[base]}'
+            if reports and (cfg.nodes_dominate(reports, bi) or cfg.nodes_postdominate(reports, bi)):
+                res.ok(key, b.loc(line), 'fabrication is dominated or post-dominated by a syntax-error report')
+            else:
+                res.violation(key, b.loc(line), f'{b.name} fabricates a {what} on a path that reports no syntax error: malformed '
+                              f'input is silently accepted and reaches the checker/compiler as if it were written that way')
+    res.floor('fabrication sites', n, 5)
+    return [res]
